@@ -523,6 +523,36 @@ def run(chk):
     if nheld < 20:
         raise AnalysisBroken("C13 R13.3: only %d calls under a lock found" % nheld)
 
+    # ------------------------------------------------------------------ R13.9 locks are taken unconditionally
+    r9 = chk.rule("R13.9", "every lock object on an engine mutex is constructed in the blocking form `lock(mutex)`: no try_to_lock / defer_lock / adopt_lock construction, no try_lock()",
+                  "every thread sees each registration once it has returned: a reader that could not get the lock has nothing but stale per-thread data to fall back on (and R13.2's 'lock held in this scope' reasoning presupposes the blocking form)")
+    nlocks = 0
+    seen9 = set()
+    for f in prog.fns:
+        if f["tk"] == "pattern" or not f["file"].startswith("include/"):
+            continue
+        for n in walk(f["body"]):
+            if n.get("k") == "decl":
+                for v in n["vars"]:
+                    t = prog.T(f, v["t"])
+                    if not t.startswith(LOCK_TYPES) or v.get("init") is None:
+                        continue
+                    init = strip_casts(v["init"])
+                    args = [a for a in (init.get("args") or []) if a.get("k") != "defarg"] if init.get("k") == "construct" else None
+                    ident = "%s: %s %s" % (strip_targs(f["q"]), t.split("<")[0], v["name"])
+                    if ident in seen9:
+                        continue
+                    seen9.add(ident)
+                    nlocks += 1
+                    if args is None or len(args) != 1:
+                        r9.ob(ident + " is acquired unconditionally", False, "%s:%d" % (f["file"], n["l"]), f["q"],
+                              "constructed as `%s`: the lock may not be held afterwards, and the path on which it was not obtained cannot read the shared state" % expr_str(prog, f, v["init"])[:90])
+            elif n.get("k") == "call" and n.get("name") in ("try_lock", "try_lock_shared", "try_lock_for", "try_lock_until", "owns_lock"):
+                r9.ob("%s: %s()" % (strip_targs(f["q"]), n["name"]), False, "%s:%d" % (f["file"], n["l"]), f["q"], "conditional acquisition of a lock")
+    r9.ob("all %d lock objects in the library are constructed as `lock(mutex)`" % nlocks, True, "", "", "")
+    r9.anchor(nlocks >= 25, "lock objects in the library (found %d)" % nlocks)
+    r9.require(1, "obligation")
+
     # ------------------------------------------------------------------ R13.5 parser re-entrancy and immutability after construction
     r5 = chk.rule("R13.5", "state shared without a lock is never written after construction: the parser's parse() entry builds a fresh local parser; m_use_paths / m_module_paths / m_parser are not written outside constructors",
                   "threads parsing at the same time through the engine's single parser object do not share parser state")
